@@ -179,7 +179,7 @@ impl Prop for C03 {
                         ("rer_nrb", eps[0].rer_nrb, eps[i].rer_nrb),
                         ("rer_onst", eps[0].rer_onst, eps[i].rer_onst),
                     ] {
-                        ensure!(((a - b).abs() as f64) <= rt, "no_export_same", "nothing exported but {} = {} at k=0 and {} at k={}", name, a, b, ks[i]);
+                        ensure!(((a - b).abs() as f64) <= rt * (1.0 + a.abs().max(b.abs()) as f64), "no_export_same", "nothing exported but {} = {} at k=0 and {} at k={}", name, a, b, ks[i]);
                     }
                 }
             } else {
